@@ -195,8 +195,10 @@ def ensure(tier="quick"):
                 # keep at most 24 fact dirs (17 MB each)
                 root = os.path.join(BUILD, "facts")
                 ds = sorted((os.path.getmtime(os.path.join(root, x)), x) for x in os.listdir(root) if ".tmp" not in x)
-                for _, x in ds[:-24]:
-                    shutil.rmtree(os.path.join(root, x), ignore_errors=True)
+                for mt, x in ds[:-24]:
+                    # a directory touched in the last ten minutes may be in use by a check running in parallel
+                    if time.time() - mt > 600:
+                        shutil.rmtree(os.path.join(root, x), ignore_errors=True)
         return d, info
     finally:
         fcntl.flock(lock, fcntl.LOCK_UN)
